@@ -90,6 +90,18 @@ fn run_seq<X: Tree>(ctx: &mut Ctx, gen: &Gen, vm: &str, ties: Option<Vec<usize>>
     qwt::verif_hooks::set_tie_script(None);
     if let Some(t) = t {
         sweep_tree(ctx, &t, &r, &o);
+        // a state obtained by deserialization must answer like the one that was serialized (every long input, a
+        // quarter of the tiny ones)
+        if vals.len() > 24 || h64(&vals) % 4 == 0 {
+            ctx.count("derived_states_swept");
+            let d = ctx.total("deserialize(serialize(..))", &o.class, 0, 0, 0, || bincode::deserialize::<X>(&bincode::serialize(&t).unwrap()).unwrap());
+            if let Some(d) = d {
+                let mut o2 = o.clone();
+                o2.class = format!("{} deserialized", o.class).trim().to_string();
+                o2.dense_limit = o.dense_limit.min(600);
+                sweep_tree(ctx, &d, &r, &o2);
+            }
+        }
     }
 }
 
